@@ -32,7 +32,9 @@ EXTENDS Integers, Sequences, FiniteSets, TLC
 CONSTANTS Names,     \* set of variable names, a subset of {"x", "y", "z"}
           Vals,      \* set of values (strings) the model assigns
           MaxDepth,  \* bound on the number of contexts (model checking only)
-          PosVals    \* set of positional-parameter lists the model uses
+          PosVals,   \* set of positional-parameter lists the model uses
+          Thens      \* follow-up actions of the alphabet, a subset of
+                     \* {"none", "assign", "export", "ro"} (model checking only)
 
 \* Fixed listing order of names (iter() and env_c_strings() are unordered in
 \* the implementation; the harness sorts them the same way).
@@ -295,9 +297,9 @@ Verdict(pre, op, res, pn, post) == VerdictC(Coherent(pre), Abstract(pre), op, re
 VARIABLE ctx
 
 Ops ==
-  [op : {"gon"}, n : Names, scope : Scopes, then : {"none", "ro"}, val : {""}, flag : {FALSE}]
-  \cup [op : {"gon"}, n : Names, scope : Scopes, then : {"assign"}, val : Vals, flag : {FALSE}]
-  \cup [op : {"gon"}, n : Names, scope : Scopes, then : {"export"}, val : {""}, flag : BOOLEAN]
+  [op : {"gon"}, n : Names, scope : Scopes, then : {"none", "ro"} \cap Thens, val : {""}, flag : {FALSE}]
+  \cup [op : {"gon"}, n : Names, scope : Scopes, then : {"assign"} \cap Thens, val : Vals, flag : {FALSE}]
+  \cup [op : {"gon"}, n : Names, scope : Scopes, then : {"export"} \cap Thens, val : {""}, flag : BOOLEAN]
   \cup [op : {"unset"}, n : Names, scope : Scopes]
   \cup [op : {"push"}, kind : {"R"}, pos : PosVals]
   \cup [op : {"push"}, kind : {"V"}, pos : {<<>>}]
@@ -334,9 +336,11 @@ ProjectionFaithful == Coherent(Project(ctx))
 \* the environment is exactly the exported visible variables with their values
 EnvExact ==
   LET e == EnvSeq(ctx)
-  IN /\ \A i \in 1..Len(e) : LET v == Lookup(ctx, e[i].n) IN v.set /\ v.ex /\ v.hv /\ v.val = e[i].val
-     /\ \A n \in Names : (LET v == Lookup(ctx, n) IN v.set /\ v.ex /\ v.hv) =>
-                          \E i \in 1..Len(e) : e[i].n = n
+      S == {e[i] : i \in 1..Len(e)}
+      innermost(n) == ctx[VMax(Holders(ctx, n))].vars[n]
+      X == {n \in Names : Holders(ctx, n) # {} /\ innermost(n).ex /\ innermost(n).hv}
+  IN /\ S = {n \o "=" \o innermost(n).val : n \in X}
+     /\ Len(e) = Cardinality(X)
 
 \* A read-only variable is never modified or unset by any means: as long as
 \* its context lives, the variable stays where it is with its value; the one
